@@ -1,5 +1,6 @@
 # C06 - slab and fault geometry equals the elementary construction for straight trenches
 import math
+import os
 import random
 
 import common
@@ -277,6 +278,45 @@ def run(chk):
                 model_dist.append(i_m)
                 if impl_nontrivial is not None:
                     impl_nontrivial.append(i_m)
+    # worlds built one after the other in one slot, each destroyed before the next is built (a loop over model variants): the same
+    # trench shifted sideways, asked along the same vertical profile; every answer must be the one the same world gives in a slot
+    # of its own (nothing may survive the destruction of a world, whatever the allocator does with its memory)
+    life_plan = []
+    for wi in range(3 if quick else 20):
+        rng.seed("%d/c06-6/%d" % (chk.seed, wi))
+        kind = ["subducting plate", "fault"][wi % 2]
+        dip = float(rng.choice([30.0, 45.0, 60.0]))
+        px, py = 2.5e5, float(round(rng.uniform(-1e5, 1e5)))
+        variants = []
+        for k in range(3):
+            x0 = 1e5 * (k + 1) + (0.0 if wi % 3 else 5e4)
+            f = {"model": kind, "name": "line", "coordinates": [[x0, -5e5], [x0, 5e5]], "dip point": [x0 + 1e6, 0.0],
+                 "segments": [{"length": 4e5, "thickness": [1e5], "angle": [dip]}],
+                 "composition models": [{"model": "uniform", "compositions": [0]}]}
+            wv = {"version": "1.1", "features": [f]}
+            variants.append((wv, cs.add_world(wv, model=False)))
+        depths = [float(round(5e3 + 1.5e4 * k)) for k in range(14)]
+        temp = 900000 + wi
+        tmp_idx = []
+        for wv, sl in variants:
+            cs.raw("world %d %s 1" % (temp, os.path.join(cs.dir, "w%d.wb" % sl)), "let () = out_str \"skip\"", {"kind": "world", "slot": temp, "world": wv})
+            for d in depths:
+                i1 = cs.raw("dist %d %s %s %s %s line" % (temp, fhex(px), fhex(py), fhex(TOP - d), fhex(d)), "let () = out_str \"skip\"",
+                            {"kind": "dist", "slot": temp, "world": wv, "pos": [px, py, TOP - d], "depth": d,
+                             "note": "world built in a slot whose previous world was destroyed just before"})
+                i2 = cs.raw("p3 %d %s %s %s %s 2 4 0 0 2 0 0" % (temp, fhex(px), fhex(py), fhex(TOP - d), fhex(d)), "let () = out_str \"skip\"",
+                            {"kind": "p3", "slot": temp, "world": wv, "pos": [px, py, TOP - d], "depth": d, "props": [[4, 0, 0], [2, 0, 0]]})
+                tmp_idx.append((i1, i2))
+            cs.raw("free %d" % temp, "let () = out_str \"skip\"", {"kind": "hook"})
+        own_idx = []
+        for wv, sl in variants:
+            for d in depths:
+                i1 = cs.raw("dist %d %s %s %s %s line" % (sl, fhex(px), fhex(py), fhex(TOP - d), fhex(d)), "let () = out_str \"skip\"",
+                            {"kind": "dist", "slot": sl, "world": wv, "pos": [px, py, TOP - d], "depth": d})
+                i2 = cs.raw("p3 %d %s %s %s %s 2 4 0 0 2 0 0" % (sl, fhex(px), fhex(py), fhex(TOP - d), fhex(d)), "let () = out_str \"skip\"",
+                            {"kind": "p3", "slot": sl, "world": wv, "pos": [px, py, TOP - d], "depth": d, "props": [[4, 0, 0], [2, 0, 0]]})
+                own_idx.append((i1, i2))
+        life_plan += list(zip(tmp_idx, own_idx))
     impl, model = cs.run()
     chk.evaluations = len(impl)
     oracle_mismatch = 0
@@ -357,6 +397,16 @@ def run(chk):
     # membership as a user gets it (shortcuts on) must be the membership of the definition (shortcuts off = the model, bit for bit)
     seen_n = set()
     ninside = 0
+    for (t1, t2), (o1, o2) in life_plan:
+        if impl[t1] != impl[o1] or impl[t2] != impl[o2]:
+            dsc = dict(cs.meta[t1])
+            dsc["slot"] = 0
+            dsc["probe_line"] = cs.probe[t1]
+            dsc.update({"in_the_reused_slot": [impl[t1], impl[t2]], "in_a_slot_of_its_own": [impl[o1], impl[o2]]})
+            viol.append(("a world built after another one was destroyed answers differently from the same world in a slot of its own "
+                         "(distance_to_plane %s vs %s)" % (impl[t1][:50], impl[o1][:50]), dsc))
+            break
+    chk.counters["queries on worlds built in a slot whose previous world was destroyed"] = len(life_plan)
     for i_b1, i_a, i_b2 in same_name:
         if not (impl[i_b1] == impl[i_a] == impl[i_b2]):
             dsc = cs.describe(i_b2)
